@@ -26,6 +26,7 @@ import (
 //verif:stub snapfs (*os.File).Write vFileWrite
 //verif:stub snapfs (*os.File).Read vFileRead
 //verif:stub snapfs io.CopyN vCopyN
+//verif:stub snapfs io.Copy vCopy
 //verif:stub snapfs path/filepath.Join vJoin
 //verif:stub snapfs (*raft.snapshots).meta vSnapsMeta
 
@@ -49,6 +50,7 @@ func vSnapsMeta(s *snapshots) (snapshotMeta, error) {
 
 type vSFile struct {
 	name    string
+	dir     string // the snapshots directory it lives in
 	kind    int    // 1 meta, 2 snap, 3 meta.tmp
 	index   uint64 // for kinds 1,2
 	content []byte // meta / meta.tmp: real bytes written by snapshotMeta.encode
@@ -75,37 +77,37 @@ func vSLookup(name string) *vSFile {
 // names are tokens: the same (kind,index) maps to the same token on the same path (indexes may be symbolic)
 var vSNames []*vSFile
 
-func vSName(kind int, index uint64) string {
+func vSName(dir string, kind int, index uint64) string {
 	for _, n := range vSNames {
-		if n.kind == kind && n.index == index {
+		if n.dir == dir && n.kind == kind && n.index == index {
 			return n.name
 		}
 	}
 	vSnapSeq++
-	name := vDir + "/snapshots/#" + string(rune('a'+vSnapSeq))
+	name := dir + "/#" + string(rune('a'+vSnapSeq))
 	if kind == 1 {
 		name += ".meta"
 	} else {
 		name += ".snap"
 	}
-	vSNames = append(vSNames, &vSFile{name: name, kind: kind, index: index})
+	vSNames = append(vSNames, &vSFile{name: name, dir: dir, kind: kind, index: index})
 	return name
 }
 
-func vNameInfo(name string) (kind int, index uint64) {
+func vNameInfo(name string) (dir string, kind int, index uint64) {
 	for _, n := range vSNames {
 		if n.name == name {
-			return n.kind, n.index
+			return n.dir, n.kind, n.index
 		}
 	}
-	if len(name) >= 8 && name[len(name)-8:] == "meta.tmp" {
-		return 3, 0
+	if len(name) >= 9 && name[len(name)-8:] == "meta.tmp" {
+		return name[:len(name)-9], 3, 0
 	}
-	return 0, 0
+	return "", 0, 0
 }
 
-func vMetaFile(dir string, index uint64) string { return vSName(1, index) }
-func vSnapFile(dir string, index uint64) string { return vSName(2, index) }
+func vMetaFile(dir string, index uint64) string { return vSName(dir, 1, index) }
+func vSnapFile(dir string, index uint64) string { return vSName(dir, 2, index) }
 func vJoin(elem ...string) string {
 	s := ""
 	for i, e := range elem {
@@ -123,8 +125,8 @@ func vSCreate(name string) *vSFile {
 		f.content, f.size = nil, 0 // truncate
 		return f
 	}
-	kind, index := vNameInfo(name)
-	f := &vSFile{name: name, kind: kind, index: index, exists: true}
+	dir, kind, index := vNameInfo(name)
+	f := &vSFile{name: name, dir: dir, kind: kind, index: index, exists: true}
 	vSFiles = append(vSFiles, f)
 	return f
 }
@@ -195,8 +197,8 @@ func vSRename(oldpath, newpath string) error {
 	if old := vSLookup(newpath); old != nil {
 		old.exists = false
 	}
-	kind, index := vNameInfo(newpath)
-	g.name, g.kind, g.index = newpath, kind, index
+	dir, kind, index := vNameInfo(newpath)
+	g.name, g.dir, g.kind, g.index = newpath, dir, kind, index
 	vCrashPoint("snap.rename.after")
 	return nil
 }
@@ -232,11 +234,17 @@ func vFileRead(f *os.File, b []byte) (int, error) {
 	return n, nil
 }
 
+// vCopyFailBudget: how many snapshot transfers may fail on one path (-1 = any number).
+var vCopyFailBudget = -1
+
 // vCopyN: the snapshot payload is abstract: only its size is tracked. The transfer may fail at any byte count.
 func vCopyN(dst io.Writer, src io.Reader, n int64) (int64, error) {
 	if f, ok := dst.(*os.File); ok {
 		g := vOSFiles[f]
-		if vBool("copy.fails") {
+		if vCopyFailBudget != 0 && vBool("copy.fails") {
+			if vCopyFailBudget > 0 {
+				vCopyFailBudget--
+			}
 			k := vI64("copy.count")
 			vAssume(k >= 0 && k < n)
 			g.size += k
@@ -252,11 +260,22 @@ func vCopyN(dst io.Writer, src io.Reader, n int64) (int64, error) {
 	return n, nil
 }
 
+// vCopy: a snapshot's payload is abstract (only its size is tracked): sending it puts no bytes on the wire, and the
+// receiver's io.CopyN (vCopyN) takes none off, so the stream stays framed.
+func vCopy(dst io.Writer, src io.Reader) (int64, error) {
+	if f, ok := src.(*os.File); ok {
+		if g := vOSFiles[f]; g != nil {
+			return g.size, nil
+		}
+	}
+	panic("vCopy: source is not a ghost snapshot file")
+}
+
 // vFindSnapshots: indexes of the published (".meta" exists) snapshots, newest first.
 func vFindSnapshots(dir string) ([]uint64, error) {
 	var snaps []uint64
 	for _, f := range vSFiles {
-		if f.exists && f.kind == 1 {
+		if f.exists && f.kind == 1 && f.dir == dir {
 			snaps = append(snaps, f.index)
 		}
 	}
